@@ -207,6 +207,8 @@ func RangeFact(x *Term, t types.Type) *Term {
 // platforms is smaller); sums of a few lengths therefore do not overflow int. Listed as an assumption.
 const maxLen = int64(1) << 48
 
+var stdSizes = types.SizesFor("gc", "amd64")
+
 // WFValue: type invariants of a freshly introduced symbolic value.
 func WFValue(v Value) *Term {
 	var fs []*Term
@@ -221,7 +223,14 @@ func WFValue(v Value) *Term {
 		case strings.HasSuffix(c.Suffix, ".len") && i+1 < len(comps) && strings.HasSuffix(comps[i+1].Suffix, ".cap"):
 			// slice: ref, off, len, cap
 			ref, off, ln, cp := v.C[i-2], v.C[i-1], v.C[i], v.C[i+1]
-			fs = append(fs, Le(Num(0), ref), Le(Num(0), off), Le(Num(0), ln), Le(ln, cp), Le(ln, Num(maxLen)), Le(Num(0), cp), Le(cp, Num(maxLen)), Le(off, Num(maxLen)),
+			bound := maxLen
+			if sl, ok := v.T.Underlying().(*types.Slice); ok && len(comps) == 4 {
+				// the backing array fits the address space: at most 2^48 bytes
+				if sz := stdSizes.Sizeof(sl.Elem()); sz > 1 {
+					bound = maxLen / sz
+				}
+			}
+			fs = append(fs, Le(Num(0), ref), Le(Num(0), off), Le(Num(0), ln), Le(ln, cp), Le(ln, Num(bound)), Le(Num(0), cp), Le(cp, Num(bound)), Le(off, Num(maxLen)),
 				Implies(Eq(ref, Num(0)), Eq(cp, Num(0))))
 		case strings.HasSuffix(c.Suffix, ".len") && i >= 2 && strings.HasSuffix(comps[i-1].Suffix, ".off") && strings.HasSuffix(comps[i-2].Suffix, ".arr"):
 			fs = append(fs, Le(Num(0), v.C[i-1]), Le(Num(0), v.C[i]), Le(v.C[i], Num(maxLen)), Le(v.C[i-1], Num(maxLen)))
